@@ -151,9 +151,10 @@ json.dump(out, open(sys.argv[2], 'w'))
 # ---------------------------------------------------------------------------------------------
 # system level: real lenses in every configuration cell
 # ---------------------------------------------------------------------------------------------
-def cell_spec(rng, cell=None, nsurf=None):
+def cell_spec(rng, cell=None, nsurf=None, field_class=None):
     """a lensgen spec forced into one of the 24 configuration cells (object finite/infinite x field type x
-    telecentric x aperture type), valid or not"""
+    telecentric x aperture type), valid or not.  field_class: 'positive' (0..+max on the y axis), 'negative-largest'
+    (the largest field magnitude is a negative y field), 'mixed-xy' (x and y extremes on different field points)"""
     import lensgen
     inf, ft, tele, ap = cell if cell else (rng.random() < 0.5, rng.choice(FIELD_TYPES), rng.random() < 0.3, rng.choice(AP_TYPES))
     spec = lensgen.gen_spec(rng, nsurf=nsurf, allow=['plane', 'standard', 'conic', 'even_asphere'], decenter=False,
@@ -168,13 +169,31 @@ def cell_spec(rng, cell=None, nsurf=None):
         spec['aperture'] = ['objectNA', rng.uniform(0.01, 0.12)]
     maxf = rng.uniform(1.0, 12.0)
     nf = rng.choice([1, 2, 3, 4])
-    fields = [[maxf * j / max(1, nf - 1) if nf > 1 else rng.choice([0.0, maxf]), 0.0, 0.0, 0.0] for j in range(nf)]
-    if nf > 1 and rng.random() < 0.5:
-        for f in fields[1:]:
-            f[2] = rng.uniform(0, 0.4)
-            f[3] = rng.uniform(0, 0.4)
+    fclass = field_class if field_class else rng.choices(['positive', 'negative-largest', 'mixed-xy'], weights=[5, 3, 2])[0]
+    if fclass == 'positive':
+        fields = [[maxf * j / max(1, nf - 1) if nf > 1 else rng.choice([0.0, maxf]), 0.0, 0.0, 0.0] for j in range(nf)]
+    elif fclass == 'negative-largest':
+        # the field of largest magnitude is negative (0, -14, -20 / -6, 0, +3 / a single negative field)
+        ys = [-maxf] + [rng.choice([0.0, -maxf * rng.uniform(0.2, 0.9), maxf * rng.uniform(0.1, 0.8)]) for _ in range(nf - 1)]
+        ys = list(dict.fromkeys(ys))
+        fields = [[y, 0.0, 0.0, 0.0] for y in ys]
+    else:
+        # x and y extremes on different field points ((0, 10), (10, 0), ...), both signs
+        fields = [[maxf * rng.uniform(0.6, 1.0) * rng.choice([-1, 1]), 0.0, 0.0, 0.0],
+                  [0.0, maxf * rng.choice([-1, 1]), 0.0, 0.0]]
+        for _ in range(nf - 2):
+            fields.append([maxf * rng.uniform(-0.6, 0.6), maxf * rng.uniform(-0.6, 0.6), 0.0, 0.0])
+    spec_fclass = fclass
+    ysorted = sorted(f[0] for f in fields)
+    increasing = all(b > a for a, b in zip(ysorted, ysorted[1:])) and max(ysorted) > 0
+    if fclass != 'mixed-xy' and len(fields) > 1 and increasing and rng.random() < 0.5:
+        for f in fields:
+            if f[0] != 0.0:
+                f[2] = rng.uniform(0, 0.4)
+                f[3] = rng.uniform(0, 0.4)
     rng.shuffle(fields)
     spec['fields'] = fields
+    spec['field_class'] = spec_fclass
     if rng.random() < 0.15:
         spec['object_radius'] = rng.uniform(80, 600) * rng.choice([-1, 1])
     if rng.random() < 0.12:
@@ -257,6 +276,73 @@ def interp_oracle(h, hs, vs):
     return float(np.interp(h, hs, vs))
 
 
+def check_max_field(o):
+    """'maximum field' = largest field magnitude of the lens (independent recomputation)"""
+    exp = max(math.hypot(f.x, f.y) for f in o.fields.fields)
+    got = float(o.fields.max_field)
+    if not abs(got - exp) <= 1e-12 * (1 + exp):
+        return [{'kind': 'max-field', 'implementation': got, 'largest_field_magnitude': exp,
+                 'fields(x,y)': [[f.x, f.y] for f in o.fields.fields]}]
+    return []
+
+
+def impl_origins(o, Hx, Hy, Px, Py, vx, vy):
+    """RayGenerator._get_ray_origins called directly; ('ok', [x0 y0 z0]) or ('err', type)"""
+    import numpy as np
+    a = lambda v: np.array([v], dtype=float)
+    try:
+        r = o.ray_generator._get_ray_origins(a(Hx), a(Hy), a(Px), a(Py), vx, vy)
+        return ('ok', [float(np.ravel(v)[0]) for v in r])
+    except Exception as e:      # noqa
+        return ('err', type(e).__name__, str(e)[:100])
+
+
+def check_origins(o, spec, args, res):
+    """the origin clauses of the property on _get_ray_origins (any field list, off-axis Hx): start height H x max field
+    (finite object, heights); chief direction at the field angles (angle fields); rejection of the unrepresentable cells"""
+    import oracles, paraxcorr
+    Hx, Hy, Px, Py, vx, vy = args
+    bad = check_max_field(o)             # reported together with the origin clause it breaks
+    inf = math.isinf(spec['object_thickness'])
+    ft, tele, ap = spec['field_type'], bool(spec.get('telecentric')), spec['aperture'][0]
+    if (inf and ft == 'object_height') or (inf and tele):
+        if res[0] == 'ok' or res[1] != 'ValueError':
+            bad.append({'kind': 'origins-not-rejected', 'cell': [inf, ft, tele, ap], 'result': list(res[:2])})
+        return bad
+    if res[0] != 'ok':
+        if not (inf and ap == 'objectNA'):      # EPD() of that cell is meaningless; generate_rays rejects it
+            bad.append({'kind': 'origins-raise', 'error': list(res[1:]), 'cell': [inf, ft, tele, ap]})
+        return bad
+    x, y, z = res[1]
+    mf = max(math.hypot(f.x, f.y) for f in o.fields.fields)
+    ps = paraxcorr.psurfs(o)
+    scale = 1 + abs(x) + abs(y)
+    if not inf and ft == 'object_height':
+        if abs(x - Hx * mf) > 1e-9 * scale or abs(y - Hy * mf) > 1e-9 * scale:
+            bad.append({'kind': 'object-height', 'origin': [x, y], 'expected': [Hx * mf, Hy * mf]})
+        return bad
+    if inf and ap == 'objectNA':
+        return bad
+    q = oracles.abcd_quantities(ps, ap, spec['aperture'][1], ft, mf)
+    EPL, EPD = q.get('EPL'), q.get('EPD')
+    if EPL is None or EPD is None or not (math.isfinite(EPL) and math.isfinite(EPD)) or not all(map(math.isfinite, (x, y, z))):
+        return bad
+    # the ray from the origin to its own pupil point (Px vx EPD/2, Py vy EPD/2, EPL) makes the field angles
+    dx, dy, dz = Px * vx * EPD / 2 - x, Py * vy * EPD / 2 - y, EPL - z
+    if inf:
+        if dz <= 0:
+            bad.append({'kind': 'launched-backwards', 'launch_z': z, 'EPL': EPL, 'N': dz})
+            return bad
+    elif Px != 0 or Py != 0:
+        dx, dy = -x, -y            # finite object: only the chief ray carries the field angle
+    if dz != 0:
+        ty, tx = math.tan(math.radians(Hy * mf)), math.tan(math.radians(Hx * mf))
+        if abs(dy / dz - ty) > 1e-9 * (1 + abs(ty)) or abs(abs(dx / dz) - abs(tx)) > 1e-9 * (1 + abs(tx)):
+            bad.append({'kind': 'field-angle', 'tan_y': dy / dz, 'expected_tan_y': ty, 'tan_x_abs': abs(dx / dz),
+                        'expected_tan_x_abs': abs(tx)})
+    return bad
+
+
 def check_launch(o, spec, ray, res, tol=1e-8):
     """ray = (Hx, Hy, Px, Py, w); res = impl_launch result.  Returns a list of violation dicts.
     Px, Py are the pupil coordinates handed to generate_rays; the generator's own (1 - v) factor is part of the aim."""
@@ -267,6 +353,12 @@ def check_launch(o, spec, ray, res, tol=1e-8):
     inf = math.isinf(spec['object_thickness'])
     ft, tele, ap = spec['field_type'], bool(spec.get('telecentric')), spec['aperture'][0]
     rules = must_reject(inf, ft, tele, ap)
+    bad.extend(check_max_field(o))       # reported together with the launch clause it breaks
+    if any(f.x != 0 for f in o.fields.fields):
+        # get_vig_factor refuses lenses with x fields (NotImplementedError) before anything else: a loud refusal, not a trace
+        if res[0] == 'ok' or res[1] != 'NotImplementedError':
+            bad.append({'kind': 'x-fields-traced-without-vignetting-model', 'result': list(res[:2])})
+        return bad
     if rules:
         if res[0] == 'ok':
             bad.append({'kind': 'not-rejected', 'rules': rules, 'cell': [inf, ft, tele, ap]})
